@@ -1,6 +1,6 @@
 import TracklibVerif.Lemmas.Simplify
 /-! Visvalingam: the `'@aire'` column is kept *consistent* by the loop (every interior entry is the area of the
-triangle spanned with the current neighbours), and what one pass does when no entry is below ARGMIN's sentinel.
+triangle spanned with the current neighbours), and what one pass does when no entry is a number below ARGMIN's sentinel or equal to it (b728412: a column of NaN).
 No property of the scalar type is used here. -/
 namespace TV.Simplify
 set_option linter.unusedSectionVars false
@@ -210,11 +210,11 @@ theorem aireVisval_mem (L : List (Fix α)) (i : Nat) (v : α) (h : aireVisval L 
         simp only [Option.some.injEq] at h
         exact ⟨p0, p1, p2, hqm p0 rfl, List.mem_of_getElem? h1, List.mem_of_getElem? h2, h.symm⟩
 
-/-! ### outside T6's hypothesis: no entry below the sentinel -/
+/-! ### outside T6's hypothesis: no entry is a number `<=` the sentinel (since b728412: only NaN) -/
 
-/-- ARGMIN answers its initial index when no entry is a number below the running minimum -/
-theorem argminLoop_default (col : List (Option α)) (i : Nat) (m : α) (id0 : Nat)
-    (h : ∀ (j : Nat) (v : α), col[j]? = some (some v) → ¬ v < m) : argminLoop col i m id0 = id0 := by
+/-- ARGMIN's loop records no index when no entry is a number below the start value or equal to it -/
+theorem argminLoop_default (col : List (Option α)) (i : Nat) (m : α)
+    (h : ∀ (j : Nat) (v : α), col[j]? = some (some v) → ¬ v < m ∧ ¬ (v == m) = true) : argminLoop col i m none = none := by
   induction col generalizing i with
   | nil => rfl
   | cons c rest ih =>
@@ -224,17 +224,18 @@ theorem argminLoop_default (col : List (Option α)) (i : Nat) (m : α) (id0 : Na
       exact ih (i + 1) (fun j v hj => h (j + 1) v (by simpa using hj))
     | some w =>
       rw [argminLoop]
-      have hw : ¬ w < m := h 0 w (by simp)
-      simp only [hw, ↓reduceIte]
+      have hw := h 0 w (by simp)
+      simp only [hw.1, hw.2]
       exact ih (i + 1) (fun j v hj => h (j + 1) v (by simpa using hj))
 
-/-- the second open statement of round 1, as a theorem: when **no** entry of the column is a number below ARGMIN's
-initial minimum `big` (`+inf` in the code since 68863c7: areas that are infinite or NaN — coordinates of about 1e154 and more), ARGMIN answers its default index 0, the
-NaN stored there does not trigger the `break`, and the pass removes the **first** observation. -/
+/-- the second open statement of round 1, as a theorem, in the form it has since b728412: when **no** entry of the column is a number
+below ARGMIN's initial minimum `big` **or equal to it** (`+inf` in the code since 68863c7: every area is NaN — an infinite area is
+now found, it equals the start value), ARGMIN records no index and answers 0, the NaN stored there does not trigger the `break`,
+and the pass removes the **first** observation. -/
 theorem vwStep_sentinel (big eps2 : α) (S : VState α) (hl : S.length > 2) (p : Fix α) (h0 : S[0]? = some (p, none))
-    (h : ∀ (j : Nat) (v : α), (S.map (·.2))[j]? = some (some v) → ¬ v < big) :
+    (h : ∀ (j : Nat) (v : α), (S.map (·.2))[j]? = some (some v) → ¬ v < big ∧ ¬ (v == big) = true) :
     ∃ S', vwStep big eps2 S = some S' ∧ S'.map (·.1) = (S.map (·.1)).eraseIdx 0 := by
-  have ea : argmin big (S.map (·.2)) = 0 := argminLoop_default _ 0 big 0 h
+  have ea : argmin big (S.map (·.2)) = 0 := by unfold argmin; rw [argminLoop_default _ 0 big h]; rfl
   unfold vwStep
   simp only [hl, ↓reduceIte, ea, h0]
   have hl1 : (S.eraseIdx 0).length = S.length - 1 := List.length_eraseIdx_of_lt (by omega)
